@@ -84,7 +84,12 @@ class _Vanish:
 
 def run_listing(base, opts, drf):
     van = os.path.join(base, opts["vanish"]) if opts.get("vanish") else None
-    with _Vanish(van):
+    import warnings
+    with _Vanish(van), warnings.catch_warnings():
+        if opts.get("werror"):
+            # the application runs with warnings turned into errors (python -W error, a test runner configured that way):
+            # a listing that would "warn and go on" then does not go on
+            warnings.simplefilter("error")
         out = drf.lsdrf(os.path.join(base, opts["root"]), **L.lsdrf_kwargs(opts))
     return [os.path.relpath(p, base) for p in out]
 
@@ -204,6 +209,12 @@ def run_case(case):
                 o2 = dict(opts, reverse=not opts["reverse"])
                 try:
                     got2 = run_listing(base, o2, drf)
+                    # the reversed listing is a listing of its own (sound, complete, each file once, ordered) ...
+                    judge(tree, o2, got2, lambda sg, d_: fail(sg + ":reversed-twin", d_))
+                    # ... and the first question asked once more gets the first answer (the tree has not changed)
+                    got3 = run_listing(base, opts, drf)
+                    if got3 != got:
+                        fail("same-listing-differs-when-repeated", "first %s... again %s... (opts %s)" % (got[:4], got3[:4], _o(opts)))
                     if set(got2) != set(got):
                         fail("reverse-changes-set", "forward-only %s reverse-only %s (opts %s)" % (
                             sorted(set(got if not opts["reverse"] else got2) - set(got2 if not opts["reverse"] else got))[:3],
